@@ -185,7 +185,7 @@ C("C06", "TestC06", P(120), P(600, 16, 2400), pkg="conc", flavour="inst", level=
   assumptions=["crash = process kill at a filesystem-call boundary", SCHED],
   exhaustive_part="all crash points (filesystem-call boundaries) of every generated target operation")
 
-C("C19", "TestC19", P(300, timeout=900), P(1500, 16, 2400), race=True,
+C("C19", "TestC19", P(300, timeout=900), P(800, 16, 2400), race=True,
   rule="rapid-generated view (one Reader memory- or file-backed, raw NewMerged over 1..4 tables, or a stack's merged view over files) and 20..120 read operations (SeekRef/SeekLog/RefsFor with bounded iteration, ReadRef); "
        "the list runs once sequentially, then 2..8 goroutines run drawn (overlapping) slices of it at the same time on the SAME Reader/Merged; the test binary is built with -race (GORACE=halt_on_error=1); "
        "oracle = identical result per operation and no race-detector report; non-trivial = >=2 goroutines whose slices overlap (the same operations, hence the same blocks, are read concurrently); distinct = hash of the case JSON",
